@@ -507,6 +507,8 @@ class Interp(object):
         self.resolved_calls = 0
         self.notes = []
 
+    frame_cls = None     # hook: a rule may substitute a Frame subclass (e.g. path-exact loops) for the top-level function
+
     # ------------------------------------------------------------------ entry
     def run(self, fi, self_val=None, args=None, depth=0):
         """Interpret function `fi`.  Returns list of final States (one per path)."""
@@ -543,7 +545,7 @@ class Interp(object):
         if depth == 0:
             for k, v in self.sc.bind.items():
                 st.env[k] = v
-        frame = Frame(self, fi, depth)
+        frame = (self.frame_cls or Frame)(self, fi, depth)
         outs = frame.block(node.body, st)
         finals = []
         for s, status in outs:
